@@ -250,6 +250,8 @@ def run(ctx):
     r.check("R11.5", set(sc) == set("\t\n\x0c\r "), "space-set", "treewalkers/base.py", "walker white space is %r" % sc)
     clark_names(ctx)
     void_agreement(ctx)
+    from . import wslint
+    wslint.run(ctx, "R11.8")
 
 
 def void_agreement(ctx):
